@@ -110,9 +110,7 @@ func zzH_Eval() {
 	implCalls := zzCallLog
 	zzOut("got", got)
 	zzOut("err", err)
-	if zzHas(checks, "C03") {
-		zzAssert(pan == nil, "no-panic")
-	}
+	zzAssert(pan == nil, "no-panic")
 	if pan != nil {
 		zzOut("panic", "yes")
 		return
